@@ -26,6 +26,7 @@ import os
 from common import setup_repo_import
 from lib import lossworld as LW
 from lib import c08sys as CS
+from lib import c08pend as CP
 import vloop
 from vloop import Spin, Stall, vrun
 
@@ -230,6 +231,8 @@ def _worker(cases):
 
 
 def run_any(c):
+    if "rd" in c:
+        return CP.run_impl(c, _ensure_patched, _CUR)
     return CS.run_impl(c, _ensure_patched, _CUR) if "ev" in c else run_impl(c)
 
 
@@ -512,6 +515,7 @@ def run(ctx):
     for i in (0, len(cases) // 3, len(cases) // 2, len(cases) - 1):
         ctx.sample({"case": cases[i], "impl": impl[i], "model": model[i]})
     run_sys(ctx, nproc)
+    run_pend(ctx, nproc)
     wait_for_ecu_probe(ctx)
     ctx.notes["silence_on_line_transports"] = (
         "a silent peer on tcp-lines / unix-lines only produces timeouts: the client retries on the same connection and ends "
@@ -600,6 +604,70 @@ def run_sys(ctx, nproc):
         ctx.sample({"case": cases[i], "impl": impl[i], "model": model[i]})
 
 
+def run_pend(ctx, nproc):
+    """k readers pending on one DoIP / HSFZ connection at the moment of the loss (lib/c08pend.py, Model/LossPend.lean)"""
+    cases = CP.gen_exhaustive()
+    n_ex = len(cases)
+    cases += CP.gen_sampled(ctx.rng, ctx.pick(1500, 12000) * (3 if ctx.widened else 1))
+    impl = run_impl_many(cases, nproc)
+    model = ctx.lean([CP.model_line(c) for c in cases])
+    viol, ties = {}, {}
+    for c, a, b in zip(cases, impl, model):
+        ctx.ev()
+        ctx.kind("pend:" + c["fl"], "pend-kind:" + c["kind"], f"pend-k:{len(c['rd'])}", f"pend-n:{c['n']}",
+                 "pend-tmo:" + ("all" if all(t is not None for _, t in c["rd"]) else
+                                "none" if all(t is None for _, t in c["rd"]) else "mixed"))
+        ctx.nontrivial(CP.case_key(c))
+        ctx.traces_validated += 1
+        for tok in CP.readers_of(a):
+            ctx.kind("pend-outcome:" + tok.split("@")[0].split(":")[0])
+        sv = CP.spec_check(c, a)
+        for clause, text in sv:
+            k = f"{clause}:{c['fl']}"
+            if k not in viol or CP.small(c) < CP.small(viol[k][0]):
+                viol[k] = (c, a, b, clause, text)
+        if not sv and " ".join(CP.readers_of(a)) != b:
+            k = c["fl"]
+            if k not in ties or CP.small(c) < CP.small(ties[k][0]):
+                ties[k] = (c, a, b)
+    for _, (c, a, b, clause, text) in sorted(viol.items()):
+        ctx.disagree(f"c08pend:{clause}:{CP.model_line(c)}:{c['kind']}", f"{CP.describe(c)}: {text}",
+                     {"case": c, "model_line": CP.model_line(c)}, impl=a, model=b, spec_violated=True, site=_pend_site(c))
+    for _, (c, a, b) in sorted(ties.items()):
+        ctx.disagree(f"c08pend:model-differs:{CP.model_line(c)}:{c['kind']}",
+                     f"{CP.describe(c)}: implementation and model differ in the readers' outcomes",
+                     {"case": c, "model_line": CP.model_line(c)}, impl=a, model=b, spec_violated=False, site=_pend_site(c))
+    ctx.exhaustive_parts.append(
+        f"pending readers: {{DoIPConnection, DoIPConnection(separate_diagnostic_message_queue=True), HSFZConnection}} x k in "
+        f"{{1, 2, 3}} readers x every assignment of {{read_diag_request, read_frame}} x caller timeout {{None, 0.7 s}} to them x "
+        f"{{0, 1, 2}} messages delivered before x loss {{eof, reset, close(), ack timeout of a concurrent write (where the "
+        f"write can start), silent peer}} ({n_ex} cases); k up to 5, other timeouts / times / message counts sampled")
+    ctx.notes["pend_cases"] = len(cases)
+    ctx.notes["pend_spec_violation_classes"] = len(viol)
+    ctx.notes["pend_model_difference_classes"] = len(ties)
+    for i in (0, len(cases) // 2, len(cases) - 1):
+        ctx.sample({"case": cases[i], "impl": impl[i], "model": model[i]})
+
+
+def _pend_site(c):
+    if c["fl"] == "hsfz":
+        return "HSFZConnection.read_frame / _read_worker / close"
+    return "DoIPConnection.read_frame_unsafe / read_diag_request_raw / close"
+
+
+def _replay_pend(ctx, c):
+    a = run_any(c)
+    b = ctx.lean([CP.model_line(c)])[0]
+    print("case  :", json.dumps(c, sort_keys=True))
+    print("what  :", CP.describe(c))
+    print("impl  :", a, " (one token per pending reader in start order, then the concurrent write, a read after the loss, close twice)")
+    print("model :", b)
+    v = CP.spec_check(c, a)
+    for clause, text in v:
+        print(f"property clause violated by the implementation: {clause}: {text}")
+    return 1 if (v or " ".join(CP.readers_of(a)) != b) else 0
+
+
 def _replay_sys(ctx, c):
     a = run_any(c)
     mline = ctx.lean([CS.model_line(c)])[0]
@@ -615,6 +683,8 @@ def _replay_sys(ctx, c):
 
 
 def _replay_one(ctx, c):
+    if "rd" in c:
+        return _replay_pend(ctx, c)
     if "ev" in c:
         return _replay_sys(ctx, c)
     a = run_impl(c)
